@@ -111,7 +111,9 @@ def run(c, prop, rule, judge_note):
     if not exe:
         return c
     run_corpus(c, exe, drv, prop)
-    budget = "20s" if c.tier == "quick" else "420s"
+    # C11's sequences are the expensive ones (every edit is re-run for determinism, idempotence and, on a share of the
+    # edits, under injected faults): a longer slice of the quick tier keeps >= 800 sequences
+    budget = ("27s" if prop == "C11" else "20s") if c.tier == "quick" else "420s"
     rc, out, err = run_harness(exe, ["-seed", str(c.seed), "-tier", c.tier, "-prop", prop, "-budget", budget], 3000)
     pairs, viols, stats = parse(out)
     if rc != 0:
